@@ -55,6 +55,9 @@ def timing(g="g", l="l", basis_g="ground-rydberg", basis_l="digital", eom=True, 
         A += [
             ("enable_eom", g, 2.0, 0.0, 0.0, False),
             ("enable_eom", g, 2.0, 1.0, -10.0, True),
+            # a setpoint whose off-detuning is far from zero (-31.8 rad/us with the default EOM): buffers and idle time inside the block
+            # are then zero-amplitude detuned PULSES, not delays (the two setpoints above have an off-detuning of exactly 0)
+            ("enable_eom", g, 20.0, 0.0, -40.0, False),
             ("eom_pulse", g, 52, 0.0, 0.0, "min-delay", False),
             ("eom_pulse", g, 50, PI2, 0.0, "no-delay", True),
             ("modify_eom", g, 1.0, 0.0, 5.0, False),
@@ -246,6 +249,7 @@ def eom_full(g="g", l=None):
         ("add", B100, g),
         ("enable_eom", g, 2.0, 0.0, 0.0, False),
         ("enable_eom", g, 2.0, 1.0, -10.0, True),
+        ("enable_eom", g, 20.0, 0.0, -40.0, True),  # off-detuning far from zero (the two above: exactly 0 with the default EOM)
         ("eom_pulse", g, 52, 0.0, 0.0, "min-delay", False),
         ("eom_pulse", g, 50, PI2, 0.0, "min-delay", True),
         ("eom_pulse", g, 16, 0.0, 1.0, "no-delay", True),
